@@ -203,17 +203,11 @@ func c06Check(p c06Prop, nl ap.NaturalLanguageValues, ci int) (ds []keyed) {
 func c06Clobber(n int) {
 	pad := strings.Repeat("#~", n/2+8)
 	doc := []byte(`{"type":"Note","id":"https://example.com/unrelated","nameMap":{"de":"` + pad + `","es":"` + pad + `"},"contentMap":{"it":"` + pad + `","pt":"` + pad + `"}}`)
-	for i := 0; i < 3; i++ {
-		_, _ = ap.UnmarshalJSON(doc)
-	}
+	_, _ = ap.UnmarshalJSON(doc)
 	_ = new(ap.Object).UnmarshalJSON(doc)
-	_ = new(ap.Actor).UnmarshalJSON(doc)
 	var nl ap.NaturalLanguageValues
 	_ = nl.UnmarshalJSON([]byte(`{"de":"` + pad + `","es":"` + pad + `"}`))
-	if gb, err := ap.GobEncode(&ap.Object{ID: "https://example.com/unrelated", Type: ap.NoteType, Name: ap.NaturalLanguageValues{{Ref: "de", Value: ap.Content(pad)}, {Ref: "es", Value: ap.Content(pad)}}}); err == nil {
-		_, _ = ap.GobDecode(gb)
-		_ = new(ap.Object).GobDecode(gb)
-	}
+	clobberGob(n)
 }
 
 var c06ValuePairs = []string{"json-methods", "encoding/json", "gob-methods"}
